@@ -125,4 +125,27 @@ def clauseV1 (a : App) (o : Observed) : Bool :=
 /-- P1: placement does not panic -/
 def clauseP1 (o : Observed) : Bool := !decide (o.outcome = .panic)
 
+/-- C2 created-queue-settings-follow-template: the effective settings of a queue created by a rule (sort policy, priority
+    sort / policy / offset, preemption policy / delay, quota preemption delay, ask backoff) are the ones
+    UpdateQueueProperties derives (`dynSettings`) from the properties of the child template of the deepest queue that
+    existed — a new leaf from the template's properties, a new parent from nothing while it carries the template's
+    properties on -/
+def clauseC2 (rx : Str → Str → Bool) (t : Tree) (rules : List Rule) (a : App) (o : Observed) : Bool :=
+  let nq := newQueues t o.after
+  nq.isEmpty ||
+  match choose rx t a rules with
+  | none => false
+  | some (_, n) =>
+    match walkUp t n with
+    | none => false
+    | some anc =>
+      nq.all (fun q =>
+        if q.leaf then decide (q.tplProps = []) && decide (q.set = dynSettings q.path true anc.tplProps)
+        else decide (q.tplProps = anc.tplProps) && decide (q.set = dynSettings q.path false []))
+
+/-- V2: the recovery queue path is not taken by anything but the recovery leaf: a call creates no parent queue at
+    root.@recovery@ and nothing below it -/
+def clauseV2 (t : Tree) (o : Observed) : Bool :=
+  (newQueues t o.after).all (fun q => !(recoveryQ.isPrefixOf q.path) || (decide (q.path = recoveryQ) && q.leaf))
+
 end Yk.Place
